@@ -59,17 +59,24 @@ def run(ctx):
     editobs.random_histories(ctx, "C04", 600 if ctx.quick else 6000, 8)
     # second layer: whatever a path matches on the real code (informational rules, repeats, nesting),
     # deleting must remove exactly those positions - DeleteNodes of the specification on the observed match set
-    corpus = querycorpus.tlc_corpus(ctx, "MC_Query", ["MC_Query_q2.cfg"] if ctx.quick else ["MC_Query_t1.cfg", "MC_Query_t2.cfg"])
     step = 7 if ctx.quick else 3
-    pairs = [(d, c["dot"]) for d, cs in corpus for k, c in enumerate(cs) if not c["err"] and (k + len(d)) % step == 0]
+    pairs = []
+    for corpus in querycorpus.stream_corpus(ctx, "MC_Query", ["MC_Query_q2.cfg"] if ctx.quick else ["MC_Query_t1.cfg", "MC_Query_t2.cfg"]):
+        pairs += [(d, c["dot"]) for d, cs in corpus for k, c in enumerate(cs) if not c["err"] and (k + len(d)) % step == 0]
+        del corpus
     # collectors: the matches are the members of the virtual result - among them, for the parent() families, the document root
     # (a refusal must leave the document whole however deep the root sits in the wrapped results)
-    ccorpus = querycorpus.tlc_corpus(ctx, "MC_Query", ["MC_Query_c15q.cfg"] if ctx.quick else ["MC_Query_c15t.cfg"])
-    cstep = 5 if ctx.quick else 1
+    cstep = 5 if ctx.quick else 2
     n0 = len(pairs)
-    pairs += [(d, c["dot"]) for d, cs in ccorpus for k, c in enumerate(cs)
-              if "COLLECTOR" in c["ty"] and not c["err"] and ")-(" not in c["dot"] and (k + len(d)) % cstep == 0]
-    for d, _ in ccorpus:
+    seen_docs = set()
+    for ccorpus in querycorpus.stream_corpus(ctx, "MC_Query", ["MC_Query_c15q.cfg"] if ctx.quick else ["MC_Query_c15t.cfg"]):
+      pairs += [(d, c["dot"]) for d, cs in ccorpus for k, c in enumerate(cs)
+                if "COLLECTOR" in c["ty"] and not c["err"] and ")-(" not in c["dot"] and (k + len(d)) % cstep == 0]
+      for d, _ in ccorpus:
+        dk = json.dumps(d, sort_keys=True)
+        if dk in seen_docs:
+            continue
+        seen_docs.add(dk)
         root = d[0]
         if root["k"] == "map" and root["keys"]:
             ks = [k["v"] for k in root["keys"] if k["t"] == "str"]
